@@ -64,6 +64,9 @@ func (w *World) exec(op Op) {
 	case "sleep":
 		w.opSleep(op.Ms)
 	case "restart":
+		if op.S == "memdir" && w.k.Store == "dir" && !w.k.readOnly() {
+			w.switchTo = "memdir"
+		}
 		w.opRestart()
 	case "settle":
 		w.settle()
